@@ -472,6 +472,8 @@ func genC18(c *Ctx) {
 	}
 	// 5. sources that already contain exotic cells
 	genC18Exotic(c)
+	// 6. concurrent operations on one prover
+	genC18Conc(c)
 }
 
 // genC18Exotic: the source given to NewMerkleProver is the body of an earlier
